@@ -65,9 +65,38 @@ func genC14(r *Rng, e *Emitter, n int) {
 			e.tally("op=points")
 			var pt geom.Coord
 			e.emit("C14.points", runSx(stride, flat), guard(func() string {
-				switch r.Intn(2) {
+				switch which := r.Intn(5); which {
 				case 0:
 					pt = xy.MultiPointCentroid(geom.NewMultiPointFlat(l, flat))
+				case 1, 2:
+					// the same points as a MultiPoint with EMPTY members in between (an EMPTY member is
+					// not a point and has no part in the mean)
+					var ends []int
+					for j := 1; j <= m; j++ {
+						for r.chance(1, 3) {
+							ends = append(ends, (j-1)*stride)
+						}
+						ends = append(ends, j*stride)
+					}
+					for r.chance(1, 3) {
+						ends = append(ends, m*stride)
+					}
+					mp := geom.NewMultiPointFlat(l, flat, geom.NewMultiPointFlatOptionWithEnds(ends))
+					if which == 1 {
+						pt = xy.MultiPointCentroid(mp)
+					} else {
+						c, err := xy.Centroid(mp)
+						if err != nil {
+							return sxErr(err)
+						}
+						pt = c
+					}
+				case 3:
+					ps := make([]*geom.Point, m)
+					for j := range ps {
+						ps[j] = geom.NewPointFlat(l, flat[j*stride:(j+1)*stride])
+					}
+					pt = xy.PointsCentroid(ps[0], ps[1:]...)
 				default:
 					pt = xy.PointsCentroidFlat(l, flat)
 				}
